@@ -58,7 +58,7 @@ def batch(entry, d, n, m, grid=8):
         try:
             tr = GB.run(sc, tape_mode="script", script=[tuple(s) for s in script])
         except TapeExhausted as e:
-            for v, pw in dist.outcomes_of(e.kind, e.range, grid):
+            for v, pw in dist.outcomes_of(e.kind, e.range, grid, getattr(e, "weights", None)):
                 stack.append((script + [(e.kind, e.range, v)], w * pw))
             continue
         c = tr["calls"][0]
